@@ -46,7 +46,9 @@ type String struct {
 // is identical to String.ContainsExpression method except for taking a standard string value.
 func ContainsExpression(s string) bool {
 	i := strings.Index(s, "${{")
-	return i >= 0 && i < strings.Index(s, "}}")
+	// Search for }} after ${{. Comparing with the index of the first }} in the entire string is not
+	// correct because }} may appear before ${{ (e.g. `{"a": {"b": 1}} ${{ foo }}`)
+	return i >= 0 && strings.Contains(s[i:], "}}")
 }
 
 // ContainsExpression returns whether the string contains at least one ${{ }} expression.
